@@ -77,6 +77,7 @@ structure Cell where
   lat : Option Nat           -- `_lattice._lattice.value`
   fill : Option Nat          -- `_fill._universe.number`
   fillComplex : Bool         -- `_fill.transform or _fill.multiple_universes`
+  setIn : Flags              -- `set_in_cell_block` of each cell-level instance (the datum was on the cell card read)
   deriving Repr, DecidableEq
 
 structure St where
@@ -386,23 +387,29 @@ def impSet (es : List ImpE) (p : P) (v : Rat) : List ImpE :=
   if impHas es p then es.map (fun e => if e.p == p then { e with v := v } else e)
   else es ++ [⟨p, v, [p]⟩]
 
+/-- `cell.py: Cell.link_to_problem` → `cell_modifier.py: CellModifierInput.link_to_problem`: linking a cell whose
+    datum of class `k` was set on its card sets `print_in_data_block[k] = False` (every `append` links) -/
+def linkFlags (f : Flags) (c : Cell) : Flags :=
+  K.all.foldl (fun g k => if c.setIn.get k then g.set k false else g) f
+
 /-- one operation; operations on a position that does not exist raise and leave the state alone -/
 def step (st : St) : Op → St × Option Err
   | .setFlag k b => ({ st with flags := st.flags.set k b }, none)
   | .append c =>
     if st.cells.any (fun d => d.number == c.number) then (st, some .numberConflict)
-    else ({ st with cells := st.cells ++ [c] }, none)
+    else ({ st with cells := st.cells ++ [c], flags := linkFlags st.flags c }, none)
   | .remove i =>
     if i < st.cells.length then ({ st with cells := st.cells.eraseIdx i }, none) else (st, some .indexError)
   | .moveEnd i =>
     match st.cells[i]? with
-    | some c => ({ st with cells := st.cells.eraseIdx i ++ [c] }, none)
+    | some c => ({ st with cells := st.cells.eraseIdx i ++ [c], flags := linkFlags st.flags c }, none)
     | none => (st, some .indexError)
   | .reorder perm =>
     -- `problem.cells = [...]`: clear, then extend (a list with a repeated or missing position is the caller's
     -- business; the collection refuses duplicates: modelled for permutations of positions only)
     if perm.all (fun j => j < st.cells.length) && perm.eraseDups.length == perm.length then
-      ({ st with cells := perm.filterMap (fun j => st.cells[j]?) }, none)
+      let cs := perm.filterMap (fun j => st.cells[j]?)
+      ({ st with cells := cs, flags := cs.foldl linkFlags st.flags }, none)
     else (st, some .numberConflict)
   | .setImp i ps v =>
     if i < st.cells.length then
